@@ -45,6 +45,15 @@ def generate(seed, tier="quick"):
         prof.special.append("norepr")
     prog = W.gen_program(rng, prof, {"prev": ["none", "same", "other", "edit", "slack", "wrong", "subset", "superset"], "n_files": (1, 3), "n_sites": (1, 4),
                                      "n_tests": (1, 4), "styles": ["assert", "rec"], "raise_events": 0.2, "hand": 0.4})
+    # test names are not in alphabetical order of definition (pytest runs a module's tests in definition order)
+    nrng = sub(seed, "names")
+    pool = ["zebra", "apple", "mango", "kiwi", "banana", "yam", "fig", "olive", "date", "plum", "cherry", "lime"]
+    nrng.shuffle(pool)
+    i = 0
+    for f in prog["files"]:
+        for t in f["tests"]:
+            t["name"] = f"test_{pool[i % len(pool)]}{i}"
+            i += 1
     frng = sub(seed, "flags")
     steps = []
     for _ in range(frng.choice([1, 1, 2, 3])):
